@@ -140,7 +140,11 @@ func TestReplay(t *testing.T) {
 	for i := 0; i < rounds; i++ {
 		switch c.Kind {
 		case "server-cap":
-			roundServerCap(t, c)
+			if c.Mode == "close-history" {
+				roundServerCapHistory(t, c)
+			} else {
+				roundServerCap(t, c)
+			}
 		case "control-cap":
 			roundControlCap(t, c)
 		case "tunnel-cap":
@@ -148,6 +152,8 @@ func TestReplay(t *testing.T) {
 		case "mapping-cap":
 			if c.Mode == "closer" {
 				roundMappingCloser(t, c)
+			} else if c.Mode == "quota-script" {
+				roundQuotaScript(t, c)
 			} else if c.Mode == "api-quota" {
 				roundAPIQuota(t, c)
 			} else {
@@ -155,6 +161,9 @@ func TestReplay(t *testing.T) {
 			}
 		case "client-config-push":
 			roundClientConfig(t, c)
+		case "code-quota-claim-window":
+			p := &vkit.Picks{List: c.Picks}
+			reportClaimWindow(t, c, runClaimWindow(c, p.Choose))
 		case "mapping-index":
 			p := &vkit.Picks{List: c.Picks}
 			reportIndex(t, c, runIndexProg(c, p.Choose))
